@@ -616,6 +616,11 @@ func (hs *clientHandshakeStateTLS13) processServerHello() error {
 		return errors.New("tls: server selected an invalid PSK and cipher suite pair")
 	}
 
+	// [uTLS]
+	if err := c.recheckResumedSessionName(hs.session); err != nil {
+		return err
+	}
+
 	hs.usingPSK = true
 	c.didResume = true
 	c.peerCertificates = hs.session.peerCertificates
